@@ -15,18 +15,65 @@ package auth
 //@   trusted recursive count of member keys against the limit
 //@   pure_fn
 
-//@ func (Keeper).GetAccount
-//@   trusted account lookup
-//@   pure_fn
-//@ func (Keeper).GetParams
-//@   trusted parameter getter
-//@   pure_fn
+// required fee of a message: a function of the fee-multiplier parameter and the message
+//@ pure feeOfP(fm x/auth/types.FeeMultipliers, msg Iface) int
+//@ func x/auth/types.(FeeMultipliers).GetFee
+//@   trusted lookup of the message type in the fee-multiplier table
+//@   modifies bigv
+//@   ensures result.i != nil && fresh(result.i) && bigv[result.i] == feeOfP(fm, msg) && feeOfP(fm, msg) >= 0
+//@   ensures forall p int {bigv[p]} :: isold(p) ==> bigv[p] == old(bigv[p])
 
-// What a successful authentication implies (C14 signature part, C15 fee part, C16 duplicate part).
+// admissible(c, tx, a): address a may sign tx - a signer named by the message, the node's current
+// output address (after both non-custodial upgrades), or the application transferring itself
+//@ pure ncustOedit(c Iface) bool = ((global(codec.UpgradeFeatureMap)["NCUST"] != 0 && ctxHeight(c) >= global(codec.UpgradeFeatureMap)["NCUST"]) || global(codec.TestMode) <= 0 - 3) && ((global(codec.UpgradeFeatureMap)["OEDIT"] != 0 && ctxHeight(c) >= global(codec.UpgradeFeatureMap)["OEDIT"]) || global(codec.TestMode) <= 0 - 3)
+//@ pure appTransferOn(c Iface) bool = ctxAfterUpgrade(c) && ((global(codec.UpgradeFeatureMap)["AppTransfer"] != 0 && ctxHeight(c) >= global(codec.UpgradeFeatureMap)["AppTransfer"]) || global(codec.TestMode) <= 0 - 3)
+//@ pure admissible(c Iface, tx x/auth/types.StdTx, a Bytes) bool = (exists j int :: 0 <= j && j < msgSignerN(tx.Msg) && a == msgSigner(tx.Msg, j)) || (ncustOedit(c) && a == outSigner(c, tx.Msg)) || (appTransferOn(c) && isAppT(c, pkAddr(tx.Signature.PublicKey), tx.Msg) && a == pkAddr(tx.Signature.PublicKey))
+
+// What a successful authentication implies.
+//  C16 [not-duplicate]  the hash of the raw bytes is not in the transaction index
+//  C14 [signed]         the returned key verifies the signature over the canonical sign bytes
+//  C14 [authorised]     the returned key's address is admissible (except at the single historical chain-halt height)
+//  C15 [fee-checked]    the declared fee covers the fee required for the message type
 //@ func ValidateTransaction
-//@   props C15,C14,C16
-//@   modifies all
+//@   props C15,C14,C16,C12
+//@   modifies acctCV, bigv
 //@   ensures [not-duplicate] sdkErr == nil ==> txIndexer != nil && !idxHas(txIndexer, txHashOf(old(bytes(txBz))))
-//@   ensures [signed] sdkErr == nil && !simulate ==> signer != nil && sigVerify(iface(signer), signBytesOf(ctxChainID(ctx), stdTx), bytes(stdTx.Signature.Signature))
-//@   ensures [fee-checked] sdkErr == nil ==> feeChkN != old(feeChkN) && feeChkOK && feeChkHave == stdTx.Fee
+//@   ensures [signed] sdkErr == nil && !simulate ==> signer != nil && sigVerify(signer, signBytesOf(ctxChainID(ctx), stdTx), old(bytes(stdTx.Signature.Signature)))
+//@   ensures [authorised] sdkErr == nil && ctxHeight(ctx) != 30334 ==> signer != nil && admissible(ctx, stdTx, pkAddr(signer))
+//@   ensures [fee-checked] sdkErr == nil ==> feeCovered(ctx, k, stdTx)
+//@   ensures [fee-checked-single-key] sdkErr == nil && !implements(signer, crypto.PublicKeyMultiSig) ==> feeCovered(ctx, k, stdTx)
+//@   ensures [rejected-returns-no-key] sdkErr != nil ==> signer == nil
+//@   ensures [accepted-returns-key] sdkErr == nil ==> signer != nil
 //@   loop 0 invariant 0 - 1 <= rangeindex && rangeindex < len(validSigners)
+//@   loop 0 invariant forall j int :: 0 <= j && j < len(validSigners) ==> admissible(ctx, stdTx, bytes(validSigners[j]))
+//@ pure feeCovered(c Iface, k x/auth/keeper.Keeper, tx x/auth/types.StdTx) bool = cvGTE(cv(tx.Fee), cvOne("upokt", feeOfP(paramsFM(c), tx.Msg)))
+
+// ---- C15: the fee is moved exactly once, from the authenticated signer, in full -----------------
+//@ func GetSignerAcc
+//@   props C15
+//@   modifies acctCV
+//@   ensures result1 == nil ==> result0 != nil && accAddr(result0) == bytes(addr) && acctCV[result0] == bal[bytes(addr)] && balHas[bytes(addr)]
+//@   ensures result1 != nil ==> !balHas[bytes(addr)]
+
+// DeductFees: on success exactly the DECLARED fee moved from the payer to the fee collector;
+// on failure no balance changed. The payer is the authenticated signer (after the non-custodial
+// upgrade; before it, the first signer named by the message).
+//@ pure payerOf(c Iface, tx x/auth/types.StdTx, s Iface) Bytes = ite((global(codec.UpgradeFeatureMap)["NCUST"] != 0 && ctxHeight(c) >= global(codec.UpgradeFeatureMap)["NCUST"]) || global(codec.TestMode) <= 0 - 3, pkAddr(s), msgSigner(tx.Msg, 0))
+//@ func DeductFees
+//@   props C15,C17,C12
+//@   modifies acctCV, bal, balHas
+//@   ensures [moves-declared-fee] result == nil ==> bal == moved(modBal(old(bal), old(balHas), "fee_collector"), old(balHas)[modAddr("fee_collector") := true], payerOf(ctx, tx, signer), modAddr("fee_collector"), cv(tx.Fee))
+//@   ensures [payer-covered] result == nil ==> !cvNeg(cvSub(curBal(old(bal), old(balHas), payerOf(ctx, tx, signer)), cv(tx.Fee)))
+//@   ensures [uncovered-moves-nothing] old(balHas[payerOf(ctx, tx, signer)]) && cvNeg(cvSub(old(bal[payerOf(ctx, tx, signer)]), cv(tx.Fee))) ==> result != nil && bal == old(bal) && balHas == old(balHas)
+//@   ensures [unknown-payer-moves-nothing] !old(balHas[payerOf(ctx, tx, signer)]) ==> result != nil && bal == old(bal) && balHas == old(balHas)
+//@   ensures [supply-untouched] supplyCV == old(supplyCV)
+
+// the ante handler: a transaction is charged only after it authenticated, and then exactly its
+// declared fee; a transaction rejected before or during authentication changes no balance
+//@ func NewAnteHandler$1
+//@   props C15,C14,C12
+//@   modifies acctCV, bigv, bal, balHas
+//@   ensures [accepted-means-authenticated-and-charged] !abort ==> isdyn(tx, types.StdTx) && signer != nil && bal == moved(modBal(old(bal), old(balHas), "fee_collector"), old(balHas)[modAddr("fee_collector") := true], payerOf(ctx, dyn(tx, types.StdTx), signer), modAddr("fee_collector"), cv(dyn(tx, types.StdTx).Fee))
+//@   ensures [accepted-means-signed] !abort && !simulate ==> sigVerify(signer, signBytesOf(ctxChainID(ctx), dyn(tx, types.StdTx)), old(bytes(dyn(tx, types.StdTx).Signature.Signature)))
+//@   ensures [auth-failure-moves-nothing] abort && signer == nil ==> bal == old(bal) && balHas == old(balHas)
+//@   ensures [supply-untouched] supplyCV == old(supplyCV)
